@@ -11,20 +11,21 @@ kw = dict(committer=b"a <a@b>", author=b"a <a@b>", commit_timestamp=1, commit_ti
 A = r.get_worktree().commit(message=b"A", **kw)
 B0 = r.get_worktree().commit(message=b"B0", **kw)
 r2 = Repo(d)
-orig = DiskRefsContainer.__getitem__
-state = {"armed": False, "C": None}
-def patched(self, name):
-    # the SECOND kind of read in porcelain.commit(amend): r.refs[HEAD] just before the CAS.
-    if state["armed"] and name == b"HEAD" and state["C"] is None and self is not r2.refs:
-        import traceback
-        st = "".join(traceback.format_stack(limit=4))
-        if "porcelain" in st and "old_head = r.refs[HEADREF]" in st:
-            state["C"] = r2.get_worktree().commit(message=b"C (concurrent)", **kw)
-    return orig(self, name)
-DiskRefsContainer.__getitem__ = patched
-state["armed"] = True
-new = porcelain.commit(d, message=b"B1 (amended)", amend=True, author=b"a <a@b>", committer=b"a <a@b>")
-DiskRefsContainer.__getitem__ = orig
+# the other actor commits C after the amended commit object was built and before HEAD is swapped
+# (interposed on the reflog-message helper that porcelain.commit calls in between)
+state = {"C": None}
+orig = porcelain._get_reflog_message
+def patched(default_message, env=None):
+    if state["C"] is None:
+        state["C"] = r2.get_worktree().commit(message=b"C (concurrent)", **kw)
+    return orig(default_message, env=env)
+porcelain._get_reflog_message = patched
+try:
+    new = porcelain.commit(d, message=b"B1 (amended)", amend=True, author=b"a <a@b>", committer=b"a <a@b>")
+    print("amend reported success")
+except Exception as e:
+    print("amend failed with", type(e).__name__, e)
+porcelain._get_reflog_message = orig
 rr = Repo(d)
 hist = [rr[e.commit.id].message for e in rr.get_walker()]
 print("concurrent commit C landed:", state["C"] is not None)
